@@ -358,7 +358,45 @@ def replay(cfg, cex):
     inp = cex["inputs"]
     h = cfg["harness"]
     if h == "step":
-        return True, "inductive-step lemma violated (symbolic state); see inputs"
+        # the same lemma on the real MiniShard with the solver's concrete state, in plain integer arithmetic
+        import warnings
+        sb = load.mod("sharded_base")
+        mm, ss, pp = (builtins.int(v) for v in inp["msp"])
+        a, (fm, fs), x = builtins.int(inp["a"]), (builtins.int(v) for v in inp["fields"]), builtins.int(inp.get("x", 0))
+        M = (1 << 64) - 1
+        spec_ = sfa.ShardSpec(mm, ss, "identity", "raw", "raw", pp)
+        tot = mm + ss + pp
+        fixed = (((fs << mm) | fm) << pp) & M
+
+        def nxt(counter):
+            ms = sfa.MiniShard(spec_, strategy="in memory")
+            ms._appended = real_np.uint64(counter & M)
+            ms.masked_bits = real_np.uint64(fixed)
+            with warnings.catch_warnings():
+                warnings.simplefilter("ignore")
+                return builtins.int(ms.next_cmc)
+
+        class RW(sb.CMCReadWrite):
+            def __init__(self, shard_spec):
+                self.shard_spec = shard_spec
+        rw = RW(spec_)
+        want = ((((a >> pp) << tot) & M) | fixed | (a & ((1 << pp) - 1))) & M
+        try:
+            got = nxt(a)
+            if got != want:
+                return True, f"next_cmc for counter {a}, bits {(mm, ss, pp)}, fields {(fm, fs)} is {got}, expected {want}"
+            if builtins.int(rw.get_minishard_key(real_np.uint64(got))) != fm or builtins.int(rw.get_shard_key(real_np.uint64(got))) != fs:
+                return True, f"next_cmc {got} does not belong to minishard {fm} of shard {fs} (bits {(mm, ss, pp)})"
+            if a + 1 < (1 << max(0, 64 - tot)) and not got < nxt(a + 1):
+                return True, f"next_cmc not increasing at counter {a} (bits {(mm, ss, pp)})"
+            lim = min(63, tot + 21)
+            if x < (1 << lim) and builtins.int(rw.get_minishard_key(real_np.uint64(x))) == fm and builtins.int(rw.get_shard_key(real_np.uint64(x))) == fs:
+                cx = (((x >> tot) << pp) | (x & ((1 << pp) - 1))) & M
+                if nxt(cx) != x:
+                    return True, f"identifier {x} of the minishard is not enumerated (counter {cx} gives {nxt(cx)}, bits {(mm, ss, pp)})"
+        except Exception as e:
+            return True, f"{type(e).__name__}: {e} (counter {a}, bits {(mm, ss, pp)})"
+        return False, "lemma holds on the real code for this state"
     grid = cfg["grid"]
     info = S.make_info(grid, 1, cfg["m"], cfg["s"], cfg["p"], cfg["idx_enc"], cfg["data_enc"])
     import copy
